@@ -13,6 +13,9 @@
 #include "EbSvtAv1Enc.h"
 #include "cfg_fields.h"
 
+/* decimal literal of any 64-bit value, signed or unsigned (atoll saturates above LLONG_MAX) */
+static long long parse_ll(const char *s) { return s[0] == '-' ? strtoll(s, NULL, 10) : (long long)strtoull(s, NULL, 10); }
+
 static int set_cfg_field(EbSvtAv1EncConfiguration *c, const char *name, long long v) {
 #define X(f) if (!strcmp(name, #f)) { c->f = v; return 1; }
     CFG_SCALARS(X)
@@ -40,7 +43,7 @@ static void on_alarm(int s) { (void)s; static const char m[] = "BLOCKED\n"; if (
 static int apply(EbSvtAv1EncConfiguration *cfg, char *toks) {
     for (char *t = strtok(toks, " \t\n"); t; t = strtok(NULL, " \t\n")) {
         char *eq = strchr(t, '='); if (!eq) return 0;
-        *eq = 0; if (!set_cfg_field(cfg, t, atoll(eq + 1))) return 0;
+        *eq = 0; if (!set_cfg_field(cfg, t, parse_ll(eq + 1))) return 0;
     }
     return 1;
 }
